@@ -260,11 +260,12 @@ Arguments replace_all {A}.
 (* values and Python's str()/repr()/truthiness on them                  *)
 
 (* loop items: strings, string-valued dicts (in dict order), ints, bools, None, and values
-   whose str()/repr() the harness supplies pre-rendered (floats, tuples) *)
+   whose str() / repr() / json.dumps() the harness supplies pre-rendered (floats, tuples) *)
 Inductive item :=
 | IStr (s : str) | IDict (kvs : list (str * str))
-| IInt (z : Z) | IBool (b : bool) | INone | IOpaque (s r : str).
-(* context values: ..., None, a pre-rendered value with its truthiness (floats), tuples *)
+| IInt (z : Z) | IBool (b : bool) | INone | IOpaque (s r j : str).
+(* context values: ..., None, a pre-rendered value with its truthiness (finite floats: str(),
+   repr() and json.dumps() of a finite float are the same text), tuples *)
 Inductive value :=
 | VStr (s : str) | VInt (z : Z) | VBool (b : bool) | VList (l : list item)
 | VNone | VOpaque (s : str) (t : bool) | VTuple (l : list item).
@@ -331,12 +332,12 @@ Definition str_bool (b : bool) : str := if b then S_TRUE else S_FALSE.
 Definition repr_item (it : item) : str :=
   match it with
   | IStr s => py_repr s | IDict kvs => repr_dict kvs
-  | IInt z => dec z | IBool b => str_bool b | INone => S_NONE | IOpaque _ r => r
+  | IInt z => dec z | IBool b => str_bool b | INone => S_NONE | IOpaque _ r _ => r
   end.
 Definition str_item (it : item) : str :=
   match it with
   | IStr s => s | IDict kvs => repr_dict kvs
-  | IInt z => dec z | IBool b => str_bool b | INone => S_NONE | IOpaque s _ => s
+  | IInt z => dec z | IBool b => str_bool b | INone => S_NONE | IOpaque s _ _ => s
   end.
 Definition str_value (v : value) : str :=
   match v with
@@ -360,8 +361,54 @@ Definition truthy (v : value) : bool :=
   | VTuple l => nonempty l
   end.
 
+(* repr() of a context value: quoted for a str, otherwise the same text as str() *)
+Definition repr_value (v : value) : str :=
+  match v with VStr s => py_repr s | _ => str_value v end.
+
+(* json.dumps() with the default arguments (ensure_ascii; separators comma-space and
+   colon-space): a str is put in double quotes; the double quote, the backslash and the
+   controls 8, 9, 10, 12, 13 get their two-character escapes; every other code point
+   outside 0x20..0x7e is backslash-u and four lower-case hex digits (a surrogate pair
+   above the BMP) *)
+Definition hex4 (c : Z) : str :=
+  [92; 117; hex_digit ((c / 4096) mod 16); hex_digit ((c / 256) mod 16);
+   hex_digit ((c / 16) mod 16); hex_digit (c mod 16)].
+Definition json_char (c : Z) : str :=
+  if c =? 34 then [92; 34]
+  else if c =? 92 then [92; 92]
+  else if c =? 10 then [92; 110]
+  else if c =? 13 then [92; 114]
+  else if c =? 9 then [92; 116]
+  else if c =? 8 then [92; 98]
+  else if c =? 12 then [92; 102]
+  else if (32 <=? c) && (c <=? 126) then [c]
+  else if c <? 65536 then hex4 c
+  else hex4 (55296 + (c - 65536) / 1024) ++ hex4 (56320 + (c - 65536) mod 1024).
+Definition json_str (s : str) : str := 34 :: flat_map json_char s ++ [34].
+Definition S_JTRUE := Eval vm_compute in zs "true".
+Definition S_JFALSE := Eval vm_compute in zs "false".
+Definition S_JNULL := Eval vm_compute in zs "null".
+Definition json_bool (b : bool) : str := if b then S_JTRUE else S_JFALSE.
+Definition json_dict (kvs : list (str * str)) : str :=
+  [LB] ++ join [44; 32] (map (fun kv => json_str (fst kv) ++ [58; 32] ++ json_str (snd kv)) kvs) ++ [RB].
+Definition json_item (it : item) : str :=
+  match it with
+  | IStr s => json_str s | IDict kvs => json_dict kvs
+  | IInt z => dec z | IBool b => json_bool b | INone => S_JNULL | IOpaque _ _ j => j
+  end.
+Definition json_value (v : value) : str :=
+  match v with
+  | VStr s => json_str s
+  | VInt z => dec z
+  | VBool b => json_bool b
+  | VNone => S_JNULL
+  | VOpaque s _ => s
+  | VList l | VTuple l => [91] ++ join [44; 32] (map json_item l) ++ [93]
+  end.
+
 (* ------------------------------------------------------------------ *)
-(* filters (ASCII)                                                      *)
+(* filters (ASCII): BUILTIN_FILTERS.  Every filter is applied to the RAW bound value
+   (never to its shielded text); only the filter's result is shielded. *)
 Definition F_UPPER := Eval vm_compute in zs "upper".
 Definition F_LOWER := Eval vm_compute in zs "lower".
 Definition F_TRIM := Eval vm_compute in zs "trim".
@@ -370,33 +417,75 @@ Definition F_LENGTH := Eval vm_compute in zs "length".
 Definition F_JSON := Eval vm_compute in zs "json".
 Definition F_REPR := Eval vm_compute in zs "repr".
 Definition FILTERS : list str := [F_UPPER; F_LOWER; F_TRIM; F_TITLE; F_LENGTH; F_JSON; F_REPR].
-Definition is_filter (w : str) : bool := existsb (str_eqb w) FILTERS.
-Definition modelled_filter (w : str) : bool :=
-  str_eqb w F_UPPER || str_eqb w F_LOWER || str_eqb w F_TRIM || str_eqb w F_LENGTH.
+Definition is_builtin (w : str) : bool := existsb (str_eqb w) FILTERS.
 
 Definition up_char (c : Z) : Z := if (97 <=? c) && (c <=? 122) then c - 32 else c.
 Definition low_char (c : Z) : Z := if (65 <=? c) && (c <=? 90) then c + 32 else c.
 Fixpoint lstrip (s : str) : str :=
   match s with c :: s' => if is_space c then lstrip s' else s | [] => [] end.
 Definition strip (s : str) : str := rev (lstrip (rev (lstrip s))).
+(* str.title(): a letter that follows a letter is lower-cased, any other letter upper-cased *)
+Definition is_alpha (c : Z) : bool := ((65 <=? c) && (c <=? 90)) || ((97 <=? c) && (c <=? 122)).
+Fixpoint title_go (prev : bool) (s : str) : str :=
+  match s with
+  | [] => []
+  | c :: s' => (if prev then low_char c else up_char c) :: title_go (is_alpha c) s'
+  end.
+Definition title (s : str) : str := title_go false s.
 
 Inductive error :=
 | EMissing (x : str)      (* ValueError("Missing required variable: x") in strict mode *)
 | EType                   (* TypeError: len() of an int / bool *)
-| EUnmodelled             (* title / json / repr: not modelled *)
 | EFuel.                  (* include recursion deeper than the number of templates: RecursionError *)
 
-Definition apply_filter (f : str) (v : value) : str + error :=
+(* str(len(x)) *)
+Definition len_filter (v : value) : str + error :=
+  match v with
+  | VStr s => inl (dec (Z.of_nat (length s)))
+  | VList l | VTuple l => inl (dec (Z.of_nat (length l)))
+  | _ => inr EType
+  end.
+Definition builtin_filter (f : str) (v : value) : str + error :=
   if str_eqb f F_UPPER then inl (map up_char (str_value v))
   else if str_eqb f F_LOWER then inl (map low_char (str_value v))
   else if str_eqb f F_TRIM then inl (strip (str_value v))
-  else if str_eqb f F_LENGTH then
-    match v with
-    | VStr s => inl (dec (Z.of_nat (length s)))
-    | VList l | VTuple l => inl (dec (Z.of_nat (length l)))
-    | _ => inr EType
-    end
-  else inr EUnmodelled.
+  else if str_eqb f F_LENGTH then len_filter v
+  else if str_eqb f F_TITLE then inl (title (str_value v))
+  else if str_eqb f F_JSON then inl (json_value v)
+  else inl (repr_value v).        (* F_REPR; only called on [is_filter] names *)
+
+(* Ribosome(filters={name: callable}): self.filters = {**BUILTIN_FILTERS, **filters}, so a custom
+   filter may carry the name of a built-in one and then replaces it.  The callables are taken
+   from a small representative family:
+     CParens  lambda x: str(x).replace("{", "(").replace("}", ")")     looks at the braces of the value
+     CRev     lambda x: str(x)[::-1]                                   permutes the value
+     CWrap    lambda x: "{{" + str(x) + "}}"                           its RESULT carries template syntax
+     CStr     str                                                      the value itself
+     CLen     len                                                      returns an int; TypeError on unsized values
+   (translate() renders str(filter(value))). *)
+Inductive cfilter := CParens | CRev | CWrap | CStr | CLen.
+Definition paren_char (c : Z) : Z := if c =? LB then 40 else if c =? RB then 41 else c.
+Definition apply_custom (cf : cfilter) (v : value) : str + error :=
+  match cf with
+  | CParens => inl (map paren_char (str_value v))
+  | CRev => inl (rev (str_value v))
+  | CWrap => inl (K_OPEN ++ str_value v ++ K_CLOSE)
+  | CStr => inl (str_value v)
+  | CLen => len_filter v
+  end.
+Definition ftable := list (str * cfilter).
+(* the custom table of the instance; every definition below takes it implicitly *)
+Class FTable := custom_filters : ftable.
+(* the documented syntax {{name|filter}} presumes identifier names *)
+Definition ftable_ok (F : ftable) : bool :=
+  forallb (fun kf => nonempty (fst kf) && forallb is_word (fst kf)) F.
+
+Definition is_filter {F : FTable} (w : str) : bool := is_builtin w || bound (custom_filters : ftable) w.
+Definition apply_filter {F : FTable} (f : str) (v : value) : str + error :=
+  match lookup (custom_filters : ftable) f with
+  | Some cf => apply_custom cf v
+  | None => builtin_filter f v
+  end.
 
 (* ------------------------------------------------------------------ *)
 (* the plain pipeline (A := Z)                                           *)
@@ -515,7 +604,7 @@ Definition include_warnings (legacy : bool) (rs : list (tok Z (str * option outc
   else flat_map (fun mc => match snd (fst mc) with Some (Ok _ w) => w | _ => [] end) (matches rs).
 
 (* _process_variables, first re.sub *)
-Definition pass_filtered (legacy : bool) (c : ctx) (s : str) : str + error :=
+Definition pass_filtered {F : FTable} (legacy : bool) (c : ctx) (s : str) : str + error :=
   subst_err (fun (m : str * str) g0 =>
                let '(x, f) := m in
                match lookup c x with
@@ -525,14 +614,14 @@ Definition pass_filtered (legacy : bool) (c : ctx) (s : str) : str + error :=
                | None => inl g0
                end)
             (scan (m_filtered idz) O s).
-Definition warn_filtered (c : ctx) (s : str) : list warning :=
+Definition warn_filtered {F : FTable} (c : ctx) (s : str) : list warning :=
   flat_map (fun mc => let '((x, f), _) := mc in
                       if bound c x && negb (is_filter f) then [WUnknownFilter f] else [])
            (matches (scan (m_filtered idz) O s)).
 
 (* the finditer loop over the string as it was BEFORE the loop; str.replace of every
    occurrence of the matched text in the string as it is NOW *)
-Definition pass_default (legacy : bool) (c : ctx) (s : str) : str :=
+Definition pass_default {F : FTable} (legacy : bool) (c : ctx) (s : str) : str :=
   fold_left (fun res (mc : (str * str) * str) =>
                let '((x, d), g0) := mc in
                if is_filter d then res
@@ -569,7 +658,7 @@ Definition missing_vars (legacy : bool) (c : ctx) (s : str) : list str :=
                    (legacy || occurs (key_pattern x) (outside_loops s)))
          (required_vars s).
 
-Fixpoint translate (legacy : bool) (fuel : nat) (strict : bool) (T : list (str * str)) (c : ctx) (s : str)
+Fixpoint translate {F : FTable} (legacy : bool) (fuel : nat) (strict : bool) (T : list (str * str)) (c : ctx) (s : str)
   : outcome :=
   match fuel with
   | O => Err EFuel
@@ -605,9 +694,9 @@ Fixpoint translate (legacy : bool) (fuel : nat) (strict : bool) (T : list (str *
       end
   end.
 
-(* Ribosome(templates=T, strict=strict).synthesize(s, **c), the code as it is now *)
-Definition render_impl (strict : bool) (T : list (str * str)) (c : ctx) (s : str) : outcome :=
+(* Ribosome(templates=T, filters=F, strict=strict).synthesize(s, **c), the code as it is now *)
+Definition render_impl {F : FTable} (strict : bool) (T : list (str * str)) (c : ctx) (s : str) : outcome :=
   translate false (S (length T)) strict T c s.
 (* ... and as it was before the repairs *)
-Definition render_legacy (strict : bool) (T : list (str * str)) (c : ctx) (s : str) : outcome :=
+Definition render_legacy {F : FTable} (strict : bool) (T : list (str * str)) (c : ctx) (s : str) : outcome :=
   translate true (S (length T)) strict T c s.
